@@ -1,4 +1,5 @@
 import TantivyModel.Proofs.WriterRefine2
+import TantivyModel.Model.WriterHistory
 /-!
 The hypotheses of the refinement theorem read off the API history alone: a scan of the history
 with three flags decides them, and the flags bound the state (`FlagInv`), so that the
@@ -10,30 +11,6 @@ open TantivyModel.WriterSpec
 
 variable {α : Type} [DecidableEq α]
 
-/-- `txDirty`: an add / delete / non-empty batch since the last commit or rollback;
-`sessDel`: a delete since the writer was (re-)created; `fresh`: nothing stamped since `rollback` -/
-structure HFlags where
-  txDirty : Bool
-  sessDel : Bool
-  fresh : Bool
-
-def HFlags.init : HFlags := ⟨false, false, false⟩
-
-def hasDel (items : List (Item α)) : Bool := items.any (fun it => match it with | .del _ => true | .add _ => false)
-
-def firstIsDel : List (Item α) → Bool
-  | .del _ :: _ => true
-  | _ => false
-
-def hstepOp (f : HFlags) : Op α → HFlags
-  | .add _ => { f with txDirty := true, fresh := false }
-  | .del _ => ⟨true, true, false⟩
-  | .batch items => ⟨f.txDirty || !items.isEmpty, f.sessDel || hasDel items, false⟩
-  | .deleteAll => { f with fresh := false }
-  | .commit _ => ⟨false, f.sessDel, false⟩
-  | .rollback => ⟨false, false, true⟩
-  | .prepare => { f with fresh := false }
-
 /-- the history-level hypotheses -/
 def okOp (f : HFlags) : Op α → Prop
   | .deleteAll => f.txDirty = false ∧ f.sessDel = false
@@ -44,6 +21,17 @@ def okOp (f : HFlags) : Op α → Prop
 def okHist (f : HFlags) : List (Op α) → Prop
   | [] => True
   | op :: ops => okOp f op ∧ okHist (hstepOp f op) ops
+
+omit [DecidableEq α] in
+theorem okOpB_iff (f : HFlags) (op : Op α) : okOpB f op = true ↔ okOp f op := by
+  cases op <;> simp [okOpB, okOp]
+
+omit [DecidableEq α] in
+/-- the executable scan the driver answers with decides exactly the hypothesis of the theorem -/
+theorem okHistB_iff (f : HFlags) (h : List (Op α)) : okHistB f h = true ↔ okHist f h := by
+  induction h generalizing f with
+  | nil => simp [okHistB, okHist]
+  | cons op ops ih => simp [okHistB, okHist, okOpB_iff, ih]
 
 def flagsAfter (f : HFlags) (e : Event α) : HFlags :=
   match e.toOp with
